@@ -19,6 +19,7 @@ def run(chk, prog, tier):
     PL.outparam_kill_rule(chk, prog)                  # the radix / sign one displacement scanner decides is not reset by the next one
     CR.radix_rule(chk, prog)                          # `[rsp+010]` is ten, as nasm reads it
     CR.mem_index_rule(chk, prog)
+    PL.zero_read_rule(chk, prog, roles)               # no addressing decision consults a field the later stages compute
     from valib import opt as OPTM
     OPTM.record_bits_rule(chk, prog)                  # the SIB option bits of the line are the instance's (the immediate scanner only resolves the mov-immediate bits)
     chk.explanation = (
